@@ -12,7 +12,7 @@ RULE = ("every undirected graph on n <= 5 (thorough 6) labelled nodes, as a symm
         "linkage at t with the components of the max_edits=t neighbour graph; non-trivial = at least one edge")
 ASSUMPTIONS = ["SciPy linkage/fcluster and igraph community detection are the trusted base named by the property; community variants are only required to stay inside connected components",
                "rapidfuzz cdist workers=-1 answered with one thread"]
-REQUIRED_CLASSES = {"all": ["empty-neighbour-list", "isolated-node", "distance-0-edge", "float-distances", "string-labels", "series-labels", "tcr-table", "single-linkage-identity", "repeated-node-labels", "empty-linkage_kws", "self-matches-in-neighbour-list", "partial-cluster_kws", "missing-node-labels", "ward-centroid-linkage", "merge-height-above-largest-distance", "explicit-metric-object"]}
+REQUIRED_CLASSES = {"all": ["empty-neighbour-list", "isolated-node", "distance-0-edge", "float-distances", "string-labels", "series-labels", "tcr-table", "single-linkage-identity", "repeated-node-labels", "empty-linkage_kws", "self-matches-in-neighbour-list", "partial-cluster_kws", "missing-node-labels", "ward-centroid-linkage", "merge-height-above-largest-distance", "explicit-metric-object", "same-concatenation-different-split"]}
 MIN_OUTCOMES = 10
 SINGLE_THREAD_RAPIDFUZZ = True
 METHODS = ("cc", "fastgreedy", "multilevel", "leiden")
@@ -47,6 +47,12 @@ def spaces(tier):
                 if n == 4 and ci % 24 != 1:
                     continue
                 yield ("tcr", tab)
+        X = (("CAVS", "SGQYF"), ("CAV", "SSGQYF"), ("CAVS", "SGQYW"), ("CA", "VSSGQYF"), ("CAVSS", "GQYF"))
+        for n in (2, 3, 4):
+            for tab in itertools.permutations(X, n):
+                if n == 4 and tab[0] > tab[-1]:
+                    continue
+                yield ("tcrx", tab)
 
     def gen_big():
         # SciPy's optimal leaf ordering needs minutes for > 5e6 distances: thorough tier only
@@ -358,11 +364,17 @@ def check_case(case, acc):
             acc.fail("hierarchical_clustering/size-boundary/%s" % form, case, "SciPy linkage (average, optimal ordering) and fcluster(t=6) of the %d distances" % len(dist), r if raised(r) else {"first-differing-merge": bad, "clusters-equal": list(r[1]) == list(eC)})
             return
         acc.ok(("big", n, form, len(set(eC))), nontrivial=True)
-    elif kind == "tcr":
+    elif kind in ("tcr", "tcrx"):
         tab = case[1]
         acc.cls("tcr-table")
-        A = [CD[a] for a, b in tab]
-        B = [CD[b] + "F" for a, b in tab]
+        if kind == "tcr":
+            A = [CD[a] for a, b in tab]
+            B = [CD[b] + "F" for a, b in tab]
+        else:
+            # explicit chains: receptors whose two CDR3s concatenate to the same text with another split are different receptors
+            acc.cls("same-concatenation-different-split")
+            A = [a for a, b in tab]
+            B = [b for a, b in tab]
         n = len(tab)
         da = np.array([ref_lev(A[i], A[j]) for i in range(n) for j in range(i + 1, n)], dtype=float)
         db = np.array([ref_lev(B[i], B[j]) for i in range(n) for j in range(i + 1, n)], dtype=float)
